@@ -584,7 +584,7 @@ Proof.
     apply elab_map_inv in E. cbn [typedn]. cbn [wf_py] in Hv. apply andb_prop in Hv. destruct Hv as [Hv Hw].
     apply andb_prop in Hv. destruct Hv as [Hl _]. assert (Hlen : len kv = @len (bytes * aval) x) by exact (Forall2_len _ _ _ E). split; [lia|].
     cbn [floats_ok] in Ha. apply forallb_Forall in Ha. apply forallb_Forall in Hw.
-    eapply Forall2_to_r; [exact E|exact Hw|exact Ha|]. intros [k x] [k' y] [Hk Hxy] Hx Hy. cbn [fst snd] in *. subst k.
+    eapply Forall2_to_r; [exact E|exact Hw|exact Ha|]. intros [k x0] [k' y] [Hk Hxy] Hx Hy. cbn [fst snd] in *. subst k.
     apply andb_prop in Hx. destruct Hx as [Hx1 Hx2]. split; [apply wf_str; exact Hx1|]. eapply IH; eassumption.
   - (* union *)
     apply elab_union_inv in H. destruct H as (i & b & v' & a0 & -> & Hn & Hel & Hcase).
@@ -618,3 +618,792 @@ Theorem elab_typed f o e s v a :
   elab f o e s v = WOk a -> wf_env e = true -> wf_schema s = true -> wf_py v = true -> floats_ok a = true ->
   exists n, (n <= f)%nat /\ typedn n e s a.
 Proof. intros. exists f. split; [lia|]. eapply elab_typedn; eassumption. Qed.
+
+(** *** list positions *)
+Lemma nthZ_app_cases {A} (a b : list A) : forall k d, nthZ (a ++ b) k = Some d ->
+  (0 <= k < len a /\ nthZ a k = Some d) \/ (len a <= k /\ nthZ b (k - len a) = Some d).
+Proof.
+  induction a as [|x a IH]; intros k d H; cbn [app] in H.
+  - right. change (len (@nil A)) with 0. rewrite Z.sub_0_r. split; [|exact H]. apply nthZ_range in H. lia.
+  - cbn [nthZ] in H. rewrite len_cons. pose proof (len_nonneg a). cbn [nthZ].
+    destruct (k =? 0) eqn:E0; [left; split; [lia|exact H]|]. destruct (k <? 0) eqn:E1; [discriminate|].
+    destruct (IH _ _ H) as [[Hk Hn]|[Hk Hn]]; [left; split; [lia|exact Hn]|right; split; [lia|]].
+    replace (k - (1 + len a)) with (k - 1 - len a) by lia. exact Hn.
+Qed.
+
+Lemma nthZ_app_mid {A} (a : list A) c b : nthZ (a ++ c :: b) (len a) = Some c.
+Proof.
+  induction a as [|x a IH]; cbn [app nthZ]; [reflexivity|]. rewrite len_cons. pose proof (len_nonneg a).
+  destruct (1 + len a =? 0) eqn:E0; [lia|]. destruct (1 + len a <? 0) eqn:E1; [lia|].
+  replace (1 + len a - 1) with (len a) by lia. exact IH.
+Qed.
+
+Lemma nthZ_cons_pos {A} (x : A) l k : 0 < k -> nthZ (x :: l) k = nthZ l (k - 1).
+Proof. intros H. cbn [nthZ]. destruct (k =? 0) eqn:E0; [lia|]. destruct (k <? 0) eqn:E1; [lia|]. reflexivity. Qed.
+
+Lemma nthZ_before {A} (a b : list A) k d : nthZ (a ++ b) k = Some d -> k < len a -> In d a.
+Proof. intros H Hk. destruct (nthZ_app_cases _ _ _ _ H) as [[_ Hn]|[Hl _]]; [eapply nthZ_In; exact Hn|lia]. Qed.
+
+Lemma nthZ_after {A} (a : list A) c b k d : nthZ (a ++ c :: b) k = Some d -> len a < k -> nthZ b (k - len a - 1) = Some d.
+Proof.
+  intros H Hk. destruct (nthZ_app_cases _ _ _ _ H) as [[Hl _]|[_ Hn]]; [lia|].
+  rewrite nthZ_cons_pos in Hn by lia. exact Hn.
+Qed.
+
+(** *** the branch search of write_union: what the loop computes *)
+Lemma is_double_kind e c : is_double c = true -> kind_of e c = SDouble.
+Proof. unfold is_double, kind_of. destruct (strip c); try discriminate. reflexivity. Qed.
+
+Section ChooseProofs.
+  Variable val : schema -> pyval -> res bool.
+  Variable e : env.
+  Variable v : pyval.
+
+  Definition vrec (c : schema) : Prop := val c v = Ok true /\ is_rec (kind_of e c) = true.   (* a validating record branch *)
+  Definition skipped (c : schema) : Prop := val c v = Ok false \/ vrec c.       (* what the loop passes over without stopping *)
+  Definition nodbl (c : schema) : Prop := is_double c = false.
+  Notation sh := (shared_of e v).
+
+  (* after a validating float branch only a "double" branch can still win *)
+  Lemma choose_cbf bs : forall i best most j, choose val e v bs i best most true = Ok j ->
+    (j = best /\ Forall nodbl bs) \/
+    (exists pre d post, bs = pre ++ d :: post /\ Forall nodbl pre /\ is_double d = true /\ j = i + len pre).
+  Proof.
+    induction bs as [|c bs IH]; intros i best most j H; cbn [choose] in H.
+    - injection H as <-. left. split; [reflexivity|constructor].
+    - destruct (is_double c) eqn:Ed.
+      + injection H as <-. right. exists [], c, bs. repeat split; [constructor|exact Ed|]. change (len (@nil schema)) with 0. lia.
+      + destruct (IH _ _ _ _ H) as [[-> Hf]|(pre & d & post & -> & Hp & Hd & ->)].
+        * left. split; [reflexivity|constructor; assumption].
+        * right. exists (c :: pre), d, post. repeat split; [constructor; assumption|exact Hd|]. rewrite len_cons. lia.
+  Qed.
+
+  (* the record part of the search: best index so far / its number of shared field names *)
+  Definition rec_best (bs : list schema) (i best most j : Z) : Prop :=
+    (j = best /\ forall c, In c bs -> vrec c -> sh c <= most) \/
+    (exists pre c post, bs = pre ++ c :: post /\ j = i + len pre /\ vrec c /\ most < sh c /\
+       (forall d, In d pre -> vrec d -> sh d < sh c) /\ (forall d, In d post -> vrec d -> sh d <= sh c)).
+
+  Lemma rec_best_cons_low c bs i best most j :
+    (vrec c -> sh c <= most) -> rec_best bs (i + 1) best most j -> rec_best (c :: bs) i best most j.
+  Proof.
+    intros Hc [[-> Hall]|(pre & c' & post & -> & -> & Hv & Hm & Hpre & Hpost)].
+    - left. split; [reflexivity|]. intros d [<-|Hd]; [exact Hc|apply Hall; exact Hd].
+    - right. exists (c :: pre), c', post. rewrite len_cons. repeat split; try assumption; [lia|apply Hv|apply Hv|].
+      intros d [<-|Hd] Hvd; [specialize (Hc Hvd); lia|apply Hpre; assumption].
+  Qed.
+
+  Lemma rec_best_cons_high c bs i best most j :
+    vrec c -> most < sh c -> rec_best bs (i + 1) i (sh c) j -> rec_best (c :: bs) i best most j.
+  Proof.
+    intros Hvc Hm [[-> Hall]|(pre & c' & post & -> & -> & Hv & Hm' & Hpre & Hpost)]; right.
+    - exists [], c, bs. change (len (@nil schema)) with 0. repeat split; try assumption; [lia|apply Hvc|apply Hvc|].
+      intros d [].
+    - exists (c :: pre), c', post. rewrite len_cons. repeat split; try assumption; [lia|apply Hv|apply Hv|lia|].
+      intros d [<-|Hd] Hvd; [lia|apply Hpre; assumption].
+  Qed.
+
+  Definition stop_at (bs : list schema) (i j : Z) : Prop :=
+    exists pre c post, bs = pre ++ c :: post /\ Forall skipped pre /\ val c v = Ok true /\ is_rec (kind_of e c) = false /\
+      ((is_flt (kind_of e c) = false /\ j = i + len pre) \/
+       (is_flt (kind_of e c) = true /\
+        ((Forall nodbl post /\ j = i + len pre) \/
+         (exists p2 d q2, post = p2 ++ d :: q2 /\ Forall nodbl p2 /\ is_double d = true /\ j = i + len pre + 1 + len p2)))).
+
+  Lemma stop_at_cons c bs i j : skipped c -> stop_at bs (i + 1) j -> stop_at (c :: bs) i j.
+  Proof.
+    intros Hc (pre & c0 & post & -> & Hp & Hv & Hr & Hcase). exists (c :: pre), c0, post. rewrite len_cons.
+    repeat split; [constructor; assumption|exact Hv|exact Hr|].
+    destruct Hcase as [[Hf ->]|[Hf [[Hn ->]|(p2 & d & q2 & -> & Hn & Hd & ->)]]].
+    - left. split; [exact Hf|lia].
+    - right. split; [exact Hf|]. left. split; [exact Hn|lia].
+    - right. split; [exact Hf|]. right. exists p2, d, q2. repeat split; try assumption. lia.
+  Qed.
+
+  (** the master statement: either no non-record branch validates and the result is the best record (or [best]),
+      or the search stops at the first validating non-record branch -- deferring from "float" to a later "double" *)
+  Theorem choose_spec bs : forall i best most j, choose val e v bs i best most false = Ok j ->
+    (Forall skipped bs /\ rec_best bs i best most j) \/ stop_at bs i j.
+  Proof.
+    induction bs as [|c bs IH]; intros i best most j H; cbn [choose] in H.
+    - injection H as <-. left. split; [constructor|]. left. split; [reflexivity|]. intros c [].
+    - destruct (val c v) as [[|]| |] eqn:Ev; cbn [bind negb] in H; try discriminate.
+      2:{ destruct (IH _ _ _ _ H) as [[Hs Hr]|Hst].
+          - left. split; [constructor; [left; exact Ev|exact Hs]|]. apply rec_best_cons_low; [|exact Hr].
+            intros [Hv _]. congruence.
+          - right. apply stop_at_cons; [left; exact Ev|exact Hst]. }
+      change (match strip c with
+              | SRef n => match lookup e n with Some d0 => strip d0 | None => strip c end
+              | d1 => d1 end) with (kind_of e c) in H.
+      destruct (kind_of e c) eqn:K;
+        try (injection H as <-; right; exists [], c, bs; rewrite K; change (len (@nil schema)) with 0;
+             repeat split; [constructor|exact Ev|]; left; split; [reflexivity|lia]).
+      + (* float *)
+        right. exists [], c, bs. rewrite K. change (len (@nil schema)) with 0.
+        repeat split; [constructor|exact Ev|]. right. split; [reflexivity|].
+        destruct (choose_cbf _ _ _ _ _ H) as [[-> Hf]|(p2 & d & q2 & -> & Hp & Hd & ->)].
+        * left. split; [exact Hf|lia].
+        * right. exists p2, d, q2. repeat split; try assumption. lia.
+      + (* record *)
+        assert (Hvc : vrec c) by (split; [exact Ev|rewrite K; reflexivity]).
+        assert (Hn : sh c = match v with PDict kv => shared_fields kv fs | _ => 0 end)
+          by (unfold shared_of; rewrite K; reflexivity).
+        rewrite <- Hn in H.
+        destruct (most <? sh c) eqn:Em.
+        * destruct (IH _ _ _ _ H) as [[Hs Hr]|Hst].
+          -- left. split; [constructor; [right; exact Hvc|exact Hs]|]. apply rec_best_cons_high; [exact Hvc|lia|exact Hr].
+          -- right. apply stop_at_cons; [right; exact Hvc|exact Hst].
+        * destruct (IH _ _ _ _ H) as [[Hs Hr]|Hst].
+          -- left. split; [constructor; [right; exact Hvc|exact Hs]|]. apply rec_best_cons_low; [intros _; lia|exact Hr].
+          -- right. apply stop_at_cons; [right; exact Hvc|exact Hst].
+  Qed.
+
+  (** corollaries for the top-level call, by position *)
+  Definition search (bs : list schema) : res Z := choose val e v bs 0 (-1) (-1) false.
+
+  Lemma is_rec_not_flt s : is_rec s = true -> is_flt s = true -> False.
+  Proof. destruct s; discriminate. Qed.
+
+  (* the chosen branch validated -- or is the "double" the search deferred to from an earlier validating "float" *)
+  Theorem search_valid bs j : search bs = Ok j -> 0 <= j ->
+    exists c, nthZ bs j = Some c /\
+      (val c v = Ok true \/
+       (is_double c = true /\ exists k cf, 0 <= k < j /\ nthZ bs k = Some cf /\ val cf v = Ok true /\ is_flt (kind_of e cf) = true)).
+  Proof.
+    intros H Hj. destruct (choose_spec _ _ _ _ _ H) as [[_ [[-> _]|(pre & c & post & -> & -> & Hv & _)]]|Hst]; [lia| |].
+    - exists c. rewrite Z.add_0_l. split; [apply nthZ_app_mid|left; apply Hv].
+    - destruct Hst as (pre & c & post & -> & Hp & Hv & Hr & Hcase).
+      destruct Hcase as [[Hf ->]|[Hf [[Hn ->]|(p2 & d & q2 & -> & Hn & Hd & ->)]]].
+      + exists c. rewrite Z.add_0_l. split; [apply nthZ_app_mid|left; exact Hv].
+      + exists c. rewrite Z.add_0_l. split; [apply nthZ_app_mid|left; exact Hv].
+      + exists d. split.
+        * replace (pre ++ c :: p2 ++ d :: q2) with ((pre ++ c :: p2) ++ d :: q2) by (rewrite <- app_assoc; reflexivity).
+          replace (0 + len pre + 1 + len p2) with (len (pre ++ c :: p2)) by (rewrite len_app, len_cons; lia). apply nthZ_app_mid.
+        * right. split; [exact Hd|]. exists (len pre), c. pose proof (len_nonneg pre). pose proof (len_nonneg p2).
+          repeat split; try assumption; try lia. apply nthZ_app_mid.
+  Qed.
+
+  (* among non-record branches the FIRST validating one is taken: if the chosen branch is neither a record nor a
+     "double", every earlier branch failed validation or is a (validating) record *)
+  Theorem search_first_nonrecord bs j c : search bs = Ok j -> nthZ bs j = Some c ->
+    is_rec (kind_of e c) = false -> is_double c = false ->
+    val c v = Ok true /\ forall k d, 0 <= k < j -> nthZ bs k = Some d -> skipped d.
+  Proof.
+    intros H Hn Hr Hd. pose proof (nthZ_range _ _ _ Hn) as Hj.
+    destruct (choose_spec _ _ _ _ _ H) as [[_ [[-> _]|(pre & c0 & post & -> & -> & Hv & _)]]|Hst]; [lia| |].
+    - rewrite Z.add_0_l, nthZ_app_mid in Hn. injection Hn as <-. destruct Hv as [_ Hv]. congruence.
+    - destruct Hst as (pre & c0 & post & -> & Hp & Hv & Hr0 & Hcase).
+      assert (Hfirst : j = 0 + len pre -> val c v = Ok true /\ forall k d, 0 <= k < j -> nthZ (pre ++ c0 :: post) k = Some d -> skipped d).
+      { intros ->. rewrite Z.add_0_l, nthZ_app_mid in Hn. injection Hn as <-. split; [exact Hv|].
+        intros k d Hk Hkd. rewrite Forall_forall in Hp. apply Hp. eapply nthZ_before; [exact Hkd|lia]. }
+      destruct Hcase as [[Hf Hjj]|[Hf [[Hnn Hjj]|(p2 & d & q2 & -> & Hnn & Hdd & ->)]]]; try (apply Hfirst; exact Hjj).
+      exfalso.
+      replace (pre ++ c0 :: p2 ++ d :: q2) with ((pre ++ c0 :: p2) ++ d :: q2) in Hn by (rewrite <- app_assoc; reflexivity).
+      replace (0 + len pre + 1 + len p2) with (len (pre ++ c0 :: p2)) in Hn by (rewrite len_app, len_cons; lia).
+      rewrite nthZ_app_mid in Hn. injection Hn as <-. congruence.
+  Qed.
+
+  (* "float" is only taken when no "double" branch follows it *)
+  Theorem search_float_last bs j c : search bs = Ok j -> nthZ bs j = Some c -> is_flt (kind_of e c) = true ->
+    forall k d, j < k -> nthZ bs k = Some d -> is_double d = false.
+  Proof.
+    intros H Hn Hf k d Hk Hkd. pose proof (nthZ_range _ _ _ Hn) as Hj.
+    destruct (choose_spec _ _ _ _ _ H) as [[_ [[-> _]|(pre & c0 & post & -> & -> & Hv & _)]]|Hst]; [lia| |].
+    - rewrite Z.add_0_l, nthZ_app_mid in Hn. injection Hn as <-. destruct Hv as [_ Hv]. exfalso. eapply is_rec_not_flt; eassumption.
+    - destruct Hst as (pre & c0 & post & -> & Hp & Hv & Hr0 & Hcase).
+      destruct Hcase as [[Hf0 ->]|[Hf0 [[Hnn ->]|(p2 & d0 & q2 & -> & Hnn & Hdd & ->)]]].
+      + rewrite Z.add_0_l, nthZ_app_mid in Hn. injection Hn as <-. congruence.
+      + rewrite Z.add_0_l in *. rewrite nthZ_app_mid in Hn. injection Hn as <-.
+        apply nthZ_after in Hkd; [|lia]. rewrite Forall_forall in Hnn. apply Hnn. eapply nthZ_In. exact Hkd.
+      + exfalso.
+        replace (pre ++ c0 :: p2 ++ d0 :: q2) with ((pre ++ c0 :: p2) ++ d0 :: q2) in Hn by (rewrite <- app_assoc; reflexivity).
+        replace (0 + len pre + 1 + len p2) with (len (pre ++ c0 :: p2)) in Hn by (rewrite len_app, len_cons; lia).
+        rewrite nthZ_app_mid in Hn. injection Hn as <-. rewrite (is_double_kind _ _ Hdd) in Hf. discriminate.
+  Qed.
+
+  (* a chosen "double" branch is either itself the first validating non-record branch, or the first "double" after
+     the first validating non-record branch, which is a "float" *)
+  Theorem search_double bs j c : search bs = Ok j -> nthZ bs j = Some c -> is_double c = true ->
+    (val c v = Ok true /\ forall k d, 0 <= k < j -> nthZ bs k = Some d -> skipped d) \/
+    (exists k cf, 0 <= k < j /\ nthZ bs k = Some cf /\ val cf v = Ok true /\ is_flt (kind_of e cf) = true /\
+       (forall m d, 0 <= m < k -> nthZ bs m = Some d -> skipped d) /\
+       (forall m d, k < m < j -> nthZ bs m = Some d -> is_double d = false)).
+  Proof.
+    intros H Hn Hd. pose proof (nthZ_range _ _ _ Hn) as Hj.
+    destruct (choose_spec _ _ _ _ _ H) as [[_ [[-> _]|(pre & c0 & post & -> & -> & Hv & _)]]|Hst]; [lia| |].
+    - rewrite Z.add_0_l, nthZ_app_mid in Hn. injection Hn as <-. destruct Hv as [_ Hv].
+      rewrite (is_double_kind _ _ Hd) in Hv. discriminate.
+    - destruct Hst as (pre & c0 & post & -> & Hp & Hv & Hr0 & Hcase).
+      assert (Hfirst : j = 0 + len pre -> val c v = Ok true /\ forall k d, 0 <= k < j -> nthZ (pre ++ c0 :: post) k = Some d -> skipped d).
+      { intros ->. rewrite Z.add_0_l, nthZ_app_mid in Hn. injection Hn as <-. split; [exact Hv|].
+        intros k d Hk Hkd. rewrite Forall_forall in Hp. apply Hp. eapply nthZ_before; [exact Hkd|lia]. }
+      destruct Hcase as [[Hf Hjj]|[Hf [[Hnn Hjj]|(p2 & d & q2 & -> & Hnn & Hdd & ->)]]]; try (left; apply Hfirst; exact Hjj).
+      right. exists (len pre), c0. pose proof (len_nonneg pre). pose proof (len_nonneg p2).
+      split; [lia|]. split; [apply nthZ_app_mid|]. split; [exact Hv|]. split; [exact Hf|]. split.
+      + intros m d0 Hm Hmd. rewrite Forall_forall in Hp. apply Hp. eapply nthZ_before; [exact Hmd|lia].
+      + intros m d0 Hm Hmd. apply nthZ_after in Hmd; [|lia].
+        rewrite Forall_forall in Hnn. apply Hnn. eapply nthZ_before; [exact Hmd|lia].
+  Qed.
+
+  (* among validating record branches the chosen one shares the most field names with the datum, first on ties
+     (and a record is only chosen when no non-record branch validates) *)
+  Theorem search_most_fields bs j c : search bs = Ok j -> nthZ bs j = Some c -> is_rec (kind_of e c) = true ->
+    val c v = Ok true /\ Forall skipped bs /\
+    forall k d, nthZ bs k = Some d -> vrec d -> sh d <= sh c /\ (k < j -> sh d < sh c).
+  Proof.
+    intros H Hn Hr. pose proof (nthZ_range _ _ _ Hn) as Hj.
+    destruct (choose_spec _ _ _ _ _ H) as [[Hsk [[-> _]|(pre & c0 & post & -> & -> & Hv & Hm & Hpre & Hpost)]]|Hst]; [lia| |].
+    - rewrite Z.add_0_l in *. rewrite nthZ_app_mid in Hn. injection Hn as <-.
+      split; [apply Hv|]. split; [exact Hsk|]. intros k d Hkd Hvd.
+      destruct (nthZ_app_cases _ _ _ _ Hkd) as [[Hk Hin]|[Hk Hin]].
+      + apply nthZ_In in Hin. specialize (Hpre _ Hin Hvd). lia.
+      + destruct (Z.eq_dec k (len pre)) as [->|Hne].
+        * rewrite Z.sub_diag in Hin. injection Hin as <-. lia.
+        * rewrite nthZ_cons_pos in Hin by lia. apply nthZ_In in Hin. specialize (Hpost _ Hin Hvd). lia.
+    - exfalso. destruct Hst as (pre & c0 & post & -> & Hp & Hv & Hr0 & Hcase).
+      destruct Hcase as [[Hf ->]|[Hf [[Hnn ->]|(p2 & d & q2 & -> & Hnn & Hdd & ->)]]].
+      + rewrite Z.add_0_l, nthZ_app_mid in Hn. injection Hn as <-. congruence.
+      + rewrite Z.add_0_l, nthZ_app_mid in Hn. injection Hn as <-. congruence.
+      + replace (pre ++ c0 :: p2 ++ d :: q2) with ((pre ++ c0 :: p2) ++ d :: q2) in Hn by (rewrite <- app_assoc; reflexivity).
+        replace (0 + len pre + 1 + len p2) with (len (pre ++ c0 :: p2)) in Hn by (rewrite len_app, len_cons; lia).
+        rewrite nthZ_app_mid in Hn. injection Hn as <-. rewrite (is_double_kind _ _ Hdd) in Hr. discriminate.
+  Qed.
+
+  (* no branch validates: the search reports -1 (the writer raises) *)
+  Theorem search_none bs : search bs = Ok (-1) -> Forall (fun c => val c v = Ok false) bs.
+  Proof.
+    intros H. destruct (choose_spec _ _ _ _ _ H) as [[Hsk [[_ Hall]|(pre & c0 & post & -> & Hj & _)]]|Hst].
+    - apply Forall_forall. intros c Hc. rewrite Forall_forall in Hsk. destruct (Hsk c Hc) as [Hf|Hv]; [exact Hf|].
+      specialize (Hall c Hc Hv). exfalso. unfold shared_of in Hall. clear - Hall.
+      destruct (kind_of e c); try lia. destruct v; try lia. unfold shared_fields in Hall.
+      pose proof (len_nonneg (filter (key_in kv) (dedup (field_names fs)))). lia.
+    - pose proof (len_nonneg pre). lia.
+    - destruct Hst as (pre & c0 & post & -> & _ & _ & _ & Hcase). pose proof (len_nonneg pre).
+      destruct Hcase as [[_ Hj]|[_ [[_ Hj]|(p2 & d & q2 & _ & _ & _ & Hj)]]]; try lia. pose proof (len_nonneg p2). lia.
+  Qed.
+End ChooseProofs.
+
+(** *** C09 at the level of the writer *)
+Lemma double_validates : forall f o e c v a, is_double c = true -> elab f o e c v = WOk a -> validate f o e c (Some v) = Ok true.
+Proof.
+  induction f as [|f IH]; intros o e c v a Hd H; [discriminate|].
+  destruct c; try discriminate Hd.
+  - cbn [elab] in H. cbn [validate]. destruct v; try discriminate; reflexivity.
+  - cbn [elab] in H. cbn [validate]. unfold is_double in *. cbn [strip] in Hd. eapply IH; eassumption.
+Qed.
+
+(* without a hint the writer picks a branch the datum validates against (hence conforms to) and writes the datum under it *)
+Theorem union_conforming f o e bs v i a :
+  elab (S f) o e (SUnion bs) v = WOk (AUnion i a) -> ~ hinted_by o v ->
+  exists b, nthZ bs i = Some b /\ elab f o e b v = WOk a /\ validate f o e b (Some v) = Ok true /\ conformsP o e b v.
+Proof.
+  intros H Hnh. apply elab_union_inv in H. destruct H as (i' & b & v' & a0 & Heq & Hn & Hel & Hcase).
+  injection Heq as <- <-.
+  destruct Hcase as [(-> & _ & Hc)|(nm & -> & Hd & _)].
+  2:{ exfalso. apply Hnh. eexists. split; [reflexivity|exact Hd]. }
+  exists b. split; [exact Hn|]. split; [exact Hel|].
+  assert (Hv : validate f o e b (Some v) = Ok true).
+  { pose proof (nthZ_range _ _ _ Hn) as Hi.
+    destruct (search_valid _ e v bs i Hc ltac:(lia)) as (c & Hnc & Hcase). rewrite Hn in Hnc. injection Hnc as <-.
+    destruct Hcase as [Hv|[Hd _]]; [exact Hv|]. eapply double_validates; eassumption. }
+  split; [exact Hv|]. exists f. exact (validate_sound _ _ _ _ _ Hv).
+Qed.
+
+Lemma find_named_spec nm bs : forall i0,
+  match find_named nm bs i0 with
+  | Some i => exists pre b post, bs = pre ++ b :: post /\ i = i0 + len pre /\ branch_name b = nm /\
+                Forall (fun c => branch_name c <> nm) pre
+  | None => Forall (fun c => branch_name c <> nm) bs
+  end.
+Proof.
+  induction bs as [|b bs IH]; intros i0; cbn [find_named]; [constructor|].
+  destruct (bytes_eqb (branch_name b) nm) eqn:E.
+  - exists [], b, bs. change (len (@nil schema)) with 0. repeat split; [lia|apply beqb_eq; exact E|constructor].
+  - assert (Hne : branch_name b <> nm) by (intros Heq; rewrite Heq, beqb_refl in E; discriminate).
+    specialize (IH (i0 + 1)). destruct (find_named nm bs (i0 + 1)) as [i|].
+    + destruct IH as (pre & c & post & -> & -> & Hc & Hp). exists (b :: pre), c, post. rewrite len_cons.
+      repeat split; [lia|exact Hc|constructor; assumption].
+    + constructor; assumption.
+Qed.
+
+(* (name, value) notation: the FIRST branch answering to the name is written, whatever the value; no such branch: error *)
+Theorem union_tuple_hint f o e bs nm x : disable_tuple o = false ->
+  elab (S f) o e (SUnion bs) (PTuple [PStr nm; x]) =
+    match find_named nm bs 0 with
+    | Some i => match nthZ bs i with
+                | Some b => let+ a := elab f o e b x in WOk (AUnion i a)
+                | None => WErr end
+    | None => WErr
+    end
+  /\ (forall i, find_named nm bs 0 = Some i ->
+        exists b, nthZ bs i = Some b /\ branch_name b = nm /\
+                  forall k c, 0 <= k < i -> nthZ bs k = Some c -> branch_name c <> nm)
+  /\ (find_named nm bs 0 = None -> forall k c, nthZ bs k = Some c -> branch_name c <> nm).
+Proof.
+  intros Hd. split; [|split].
+  - rewrite elab_union_eq, Hd. reflexivity.
+  - intros i Hi. pose proof (find_named_spec nm bs 0) as Hs. rewrite Hi in Hs.
+    destruct Hs as (pre & b & post & -> & -> & Hb & Hp). exists b. rewrite Z.add_0_l.
+    split; [apply nthZ_app_mid|]. split; [exact Hb|]. intros k c Hk Hkc. rewrite Forall_forall in Hp. apply Hp.
+    eapply nthZ_before; [exact Hkc|lia].
+  - intros Hn k c Hkc. pose proof (find_named_spec nm bs 0) as Hs. rewrite Hn in Hs. rewrite Forall_forall in Hs.
+    apply Hs. eapply nthZ_In. exact Hkc.
+Qed.
+
+Lemma validate_strip o e : forall b f v r, validate f o e b (Some v) = Ok r -> exists f', validate f' o e (strip b) (Some v) = Ok r.
+Proof.
+  induction b; intros f v r H; try (exists f; exact H).
+  destruct f as [|f]; [discriminate|]. cbn [validate] in H. cbn [strip]. eapply IHb. exact H.
+Qed.
+
+(* a "-type" entry is only accepted by the record branch of that full name (directly or through a reference) *)
+Theorem type_hint_selects f o e b kv n al fs t :
+  validate f o e b (Some (PDict kv)) = Ok true -> kind_of e b = SRecord n al fs ->
+  dict_get kv (s2b "-type") = Some t -> t = PStr n.
+Proof.
+  intros H K Ht.
+  assert (Hrec : forall f0 n0 al0 fs0, validate f0 o e (SRecord n0 al0 fs0) (Some (PDict kv)) = Ok true -> t = PStr n0).
+  { intros f0 n0 al0 fs0 H0. apply validate_sound in H0. destruct f0 as [|f0]; [destruct H0|].
+    cbn [conforms_opt conforms] in H0. destruct H0 as (kv' & Hkv & Hh & _). injection Hkv as <-.
+    unfold type_hint_ok in Hh. rewrite Ht in Hh. exact Hh. }
+  destruct (validate_strip _ _ _ _ _ _ H) as (f1 & H1). unfold kind_of in K.
+  destruct (strip b) eqn:Es; try discriminate K.
+  - injection K as <- <- <-. eapply Hrec. exact H1.
+  - destruct f1 as [|f1]; [discriminate|]. cbn [validate] in H1. destruct (lookup e n0) as [d|]; [|discriminate].
+    destruct (validate_strip _ _ _ _ _ _ H1) as (f2 & H2). rewrite K in H2. eapply Hrec. exact H2.
+Qed.
+
+(* determinism: the choice is a function of (options, named schemas, union, datum) *)
+Theorem union_choice_function f o e bs v a a' :
+  elab f o e (SUnion bs) v = WOk a -> elab f o e (SUnion bs) v = WOk a' -> a = a'.
+Proof. intros H H'. rewrite H in H'. injection H' as <-. reflexivity. Qed.
+
+(** the search theorems, stated for the writer: [vval f o e] is the validator call of write_union *)
+Definition vval f o e : schema -> pyval -> res bool := fun c x => validate f o e c (Some x).
+
+Lemma union_search_of_elab f o e bs v i a :
+  elab (S f) o e (SUnion bs) v = WOk (AUnion i a) -> ~ hinted_by o v -> search (vval f o e) e v bs = Ok i.
+Proof.
+  intros H Hnh. apply elab_union_inv in H. destruct H as (i' & b & v' & a0 & Heq & Hn & Hel & Hcase).
+  injection Heq as <- <-. destruct Hcase as [(_ & _ & Hc)|(nm & -> & Hd & _)]; [exact Hc|].
+  exfalso. apply Hnh. eexists. split; [reflexivity|exact Hd].
+Qed.
+
+Theorem union_first_nonrecord f o e bs v i a c :
+  elab (S f) o e (SUnion bs) v = WOk (AUnion i a) -> ~ hinted_by o v -> nthZ bs i = Some c ->
+  is_rec (kind_of e c) = false -> is_double c = false ->
+  validate f o e c (Some v) = Ok true /\
+  forall k d, 0 <= k < i -> nthZ bs k = Some d ->
+    validate f o e d (Some v) = Ok false \/ (validate f o e d (Some v) = Ok true /\ is_rec (kind_of e d) = true).
+Proof. intros H Hnh. exact (search_first_nonrecord (vval f o e) e v bs i c (union_search_of_elab _ _ _ _ _ _ _ H Hnh)). Qed.
+
+Theorem union_float_last f o e bs v i a c :
+  elab (S f) o e (SUnion bs) v = WOk (AUnion i a) -> ~ hinted_by o v -> nthZ bs i = Some c ->
+  is_flt (kind_of e c) = true -> forall k d, i < k -> nthZ bs k = Some d -> is_double d = false.
+Proof. intros H Hnh. exact (search_float_last (vval f o e) e v bs i c (union_search_of_elab _ _ _ _ _ _ _ H Hnh)). Qed.
+
+Theorem union_double f o e bs v i a c :
+  elab (S f) o e (SUnion bs) v = WOk (AUnion i a) -> ~ hinted_by o v -> nthZ bs i = Some c -> is_double c = true ->
+  (validate f o e c (Some v) = Ok true /\
+   forall k d, 0 <= k < i -> nthZ bs k = Some d ->
+     validate f o e d (Some v) = Ok false \/ (validate f o e d (Some v) = Ok true /\ is_rec (kind_of e d) = true)) \/
+  (exists k cf, 0 <= k < i /\ nthZ bs k = Some cf /\ validate f o e cf (Some v) = Ok true /\ is_flt (kind_of e cf) = true /\
+     (forall m d, 0 <= m < k -> nthZ bs m = Some d ->
+        validate f o e d (Some v) = Ok false \/ (validate f o e d (Some v) = Ok true /\ is_rec (kind_of e d) = true)) /\
+     (forall m d, k < m < i -> nthZ bs m = Some d -> is_double d = false)).
+Proof. intros H Hnh. exact (search_double (vval f o e) e v bs i c (union_search_of_elab _ _ _ _ _ _ _ H Hnh)). Qed.
+
+Theorem union_most_fields f o e bs v i a c :
+  elab (S f) o e (SUnion bs) v = WOk (AUnion i a) -> ~ hinted_by o v -> nthZ bs i = Some c ->
+  is_rec (kind_of e c) = true ->
+  validate f o e c (Some v) = Ok true /\
+  Forall (fun d => validate f o e d (Some v) = Ok false \/ (validate f o e d (Some v) = Ok true /\ is_rec (kind_of e d) = true)) bs /\
+  forall k d, nthZ bs k = Some d -> validate f o e d (Some v) = Ok true /\ is_rec (kind_of e d) = true ->
+    shared_of e v d <= shared_of e v c /\ (k < i -> shared_of e v d < shared_of e v c).
+Proof. intros H Hnh. exact (search_most_fields (vval f o e) e v bs i c (union_search_of_elab _ _ _ _ _ _ _ H Hnh)). Qed.
+
+(* when no branch validates the writer raises *)
+Theorem union_no_branch f o e bs v :
+  ~ hinted_by o v -> Forall (fun c => validate f o e c (Some v) = Ok false) bs -> elab (S f) o e (SUnion bs) v = WErr.
+Proof.
+  intros Hnh Hall.
+  assert (Hc : forall i best most, choose (vval f o e) e v bs i best most false = Ok best).
+  { induction Hall as [|c bs Hc _ IH]; intros i best most; cbn [choose]; [reflexivity|].
+    unfold vval at 1. rewrite Hc. cbn [bind negb]. apply IH. }
+  assert (Hs : union_search f o e bs v = WErr).
+  { unfold union_search. fold (vval f o e). rewrite Hc. reflexivity. }
+  rewrite elab_union_eq. destruct v; try exact Hs. destruct (disable_tuple o) eqn:Ed; [exact Hs|].
+  exfalso. apply Hnh. eexists. split; [reflexivity|exact Ed].
+Qed.
+
+(** *** Writer.write with validator=True: the record is validated (raising mode) before anything is encoded *)
+Definition writer_write (validator : bool) f o e s (buf : bytes) (v : pyval) : wres bytes :=
+  if validator then
+    match validate_raise f o e s (Some v) with
+    | VTrue => let+ bs := write f o e s v in WOk (buf ++ bs)
+    | VRaised | VErr => WErr              (* the exception leaves [buf] as it was *)
+    | VFuel => WFuel
+    end
+  else let+ bs := write f o e s v in WOk (buf ++ bs).
+
+Theorem writer_gate f o e s buf v : validate f o e s (Some v) = Ok false -> writer_write true f o e s buf v = WErr.
+Proof. intros H. unfold writer_write. apply validate_raise_iff in H. rewrite H. reflexivity. Qed.
+
+(** *** C10: what validate accepts the (default) writer encodes -- under the side condition [wdom] *)
+Definition ev_elab o e s v : Prop := exists f0, forall f', (f0 <= f')%nat -> exists a, elab f' o e s v = WOk a.
+
+Lemma ev_now o e s v (f0 : nat) : (forall f', (f0 <= f')%nat -> exists a, elab f' o e s v = WOk a) -> ev_elab o e s v.
+Proof. intros H. exists f0. exact H. Qed.
+
+Lemma elab_items_ev o e it l : Forall (ev_elab o e it) l ->
+  exists f0, forall f', (f0 <= f')%nat -> exists r, elab_items (elab f' o e) it l = WOk r.
+Proof.
+  induction 1 as [|x l [fx Hx] _ [fl Hl]].
+  - exists O. intros f' _. exists []. reflexivity.
+  - exists (Nat.max fx fl). intros f' Hf. destruct (Hx f' ltac:(lia)) as [a Ha]. destruct (Hl f' ltac:(lia)) as [r Hr].
+    exists (a :: r). cbn [elab_items]. rewrite Ha. cbn [wbind]. rewrite Hr. reflexivity.
+Qed.
+
+Lemma elab_map_ev o e vs kv : Forall (fun p => (exists k, fst p = PStr k) /\ ev_elab o e vs (snd p)) kv ->
+  exists f0, forall f', (f0 <= f')%nat -> exists r, elab_map (elab f' o e) vs kv = WOk r.
+Proof.
+  induction 1 as [|[k x] l [[k' Hk] [fx Hx]] _ [fl Hl]].
+  - exists O. intros f' _. exists []. reflexivity.
+  - cbn [fst snd] in *. subst k. exists (Nat.max fx fl). intros f' Hf.
+    destruct (Hx f' ltac:(lia)) as [a Ha]. destruct (Hl f' ltac:(lia)) as [r Hr].
+    exists ((k', a) :: r). cbn [elab_map]. rewrite Ha. cbn [wbind]. rewrite Hr. reflexivity.
+Qed.
+
+(* float(datum_value) for fields spelled "float" / "double" *)
+Definition fconv (t : schema) (v : pyval) : wres pyval :=
+  match t with
+  | SFloat | SDouble => let+ b := to_double v in WOk (PFloat b)
+  | _ => WOk v
+  end.
+
+Definition field_ready o e (kv : list (pyval * pyval)) (fd : field) : Prop :=
+  (key_in kv (fname fd) = false -> fdefault fd = None -> nullok (ftype fd) = true) /\
+  exists v', fconv (ftype fd) (field_datum kv fd) = WOk v' /\ ev_elab o e (ftype fd) v'.
+
+Lemma elab_fields_ev o e kv fs : strict o = false -> strict_allow_default o = false ->
+  Forall (field_ready o e kv) fs ->
+  exists f0, forall f', (f0 <= f')%nat -> exists r, elab_fields (elab f' o e) o kv fs = WOk r.
+Proof.
+  intros Hs Hsd. induction 1 as [|fd l [Hnull (v' & Hc & [fx Hx])] _ [fl Hl]].
+  - exists O. intros f' _. exists []. reflexivity.
+  - exists (Nat.max fx fl). intros f' Hf. destruct (Hx f' ltac:(lia)) as [a Ha]. destruct (Hl f' ltac:(lia)) as [r Hr].
+    exists (a :: r). cbn [elab_fields]. rewrite Hs, Hsd. cbn [orb andb]. rewrite andb_false_r. cbn [andb].
+    assert (Hg : negb (key_in kv (fname fd)) && negb match fdefault fd with Some _ => true | None => false end
+                 && negb (nullok (ftype fd)) = false).
+    { destruct (key_in kv (fname fd)) eqn:Ek; [reflexivity|]. destruct (fdefault fd) eqn:Ed; [reflexivity|].
+      rewrite (Hnull eq_refl eq_refl). reflexivity. }
+    rewrite Hg. fold (field_datum kv fd). fold (fconv (ftype fd) (field_datum kv fd)). rewrite Hc. cbn [wbind].
+    rewrite Ha. cbn [wbind]. rewrite Hr. reflexivity.
+Qed.
+
+Lemma elab_array_eq f o e it v l : as_sequence v = Some l ->
+  elab (S f) o e (SArray it) v = let+ r := elab_items (elab f o e) it l in WOk (AArray r).
+Proof. destruct v; cbn [as_sequence]; intros H; try discriminate; injection H as <-; reflexivity. Qed.
+
+(* the search never fails when the validator answers on every branch, and its result is an index or [best] *)
+Section ChooseTotal.
+  Variables (val1 val2 : schema -> pyval -> res bool) (e : env) (v : pyval).
+
+  Lemma choose_ext bs : (forall c, In c bs -> val1 c v = val2 c v) ->
+    forall i best most cbf, choose val1 e v bs i best most cbf = choose val2 e v bs i best most cbf.
+  Proof.
+    induction bs as [|c bs IH]; intros Hv i best most cbf; cbn [choose]; [reflexivity|].
+    assert (IH' := IH (fun c0 H0 => Hv c0 (or_intror H0))).
+    destruct cbf; [destruct (is_double c); [reflexivity|apply IH']|].
+    rewrite (Hv c (or_introl eq_refl)). destruct (val2 c v) as [[|]| |]; cbn [bind negb]; try reflexivity; [|apply IH'].
+    destruct (match strip c with SRef n => match lookup e n with Some d => strip d | None => strip c end | d => d end);
+      try reflexivity; try apply IH'.
+    destruct (most <? _); apply IH'.
+  Qed.
+
+End ChooseTotal.
+
+Section ChooseTotal2.
+  Variables (val1 : schema -> pyval -> res bool) (e : env) (v : pyval).
+
+  Lemma choose_total bs : (forall c, In c bs -> exists b, val1 c v = Ok b) ->
+    forall i best most cbf, exists j, choose val1 e v bs i best most cbf = Ok j /\ (j = best \/ i <= j < i + len bs).
+  Proof.
+    induction bs as [|c bs IH]; intros Hv i best most cbf; cbn [choose].
+    - exists best. split; [reflexivity|left; reflexivity].
+    - assert (IH' := IH (fun c0 H0 => Hv c0 (or_intror H0))). rewrite len_cons. pose proof (len_nonneg bs).
+      assert (Hstep : forall best' most' cbf', exists j, choose val1 e v bs (i + 1) best' most' cbf' = Ok j /\
+                        (j = best' \/ i <= j < i + (1 + len bs))).
+      { intros b' m' c'. destruct (IH' (i + 1) b' m' c') as (j & Hj & Hr). exists j. split; [exact Hj|]. lia. }
+      assert (Hhere : forall most' cbf', exists j, choose val1 e v bs (i + 1) i most' cbf' = Ok j /\
+                        (j = best \/ i <= j < i + (1 + len bs))).
+      { intros m' c'. destruct (IH' (i + 1) i m' c') as (j & Hj & Hr). exists j. split; [exact Hj|]. lia. }
+      destruct cbf.
+      + destruct (is_double c); [exists i; split; [reflexivity|lia]|apply Hstep].
+      + destruct (Hv c (or_introl eq_refl)) as [b Hb]. rewrite Hb. cbn [bind]. destruct b; cbn [negb]; [|apply Hstep].
+        destruct (match strip c with SRef n => match lookup e n with Some d => strip d | None => strip c end | d => d end);
+          try (exists i; split; [reflexivity|lia]).
+        * apply (Hhere most true).
+        * destruct (most <? _); [apply (Hhere _ false)|apply Hstep].
+  Qed.
+End ChooseTotal2.
+
+Lemma nthZ_some {A} (l : list A) : forall i, 0 <= i < len l -> exists x, nthZ l i = Some x.
+Proof.
+  induction l as [|a l IH]; intros i Hi; [change (len (@nil A)) with 0 in Hi; lia|]. rewrite len_cons in Hi. cbn [nthZ].
+  destruct (i =? 0) eqn:E0; [eexists; reflexivity|]. destruct (i <? 0) eqn:E1; [lia|]. apply IH. lia.
+Qed.
+
+Lemma find_first_named nm bs : forall i0,
+  match find_named nm bs i0 with
+  | Some i => exists b, first_named nm bs = Some b /\ nthZ bs (i - i0) = Some b
+  | None => first_named nm bs = None
+  end.
+Proof.
+  induction bs as [|b bs IH]; intros i0; cbn [find_named first_named]; [reflexivity|].
+  destruct (bytes_eqb (branch_name b) nm).
+  - exists b. split; [reflexivity|]. rewrite Z.sub_diag. reflexivity.
+  - specialize (IH (i0 + 1)). destruct (find_named nm bs (i0 + 1)) as [i|] eqn:Ef; [|exact IH].
+    destruct IH as (c & Hc & Hn). exists c. split; [exact Hc|].
+    pose proof (find_named_spec nm bs (i0 + 1)) as Hs. rewrite Ef in Hs. destruct Hs as (pre & ? & ? & _ & Hi & _).
+    pose proof (len_nonneg pre). rewrite nthZ_cons_pos by lia. replace (i - i0 - 1) with (i - (i0 + 1)) by lia. exact Hn.
+Qed.
+
+Lemma number_of_float_kind f o e cf v : validate f o e cf (Some v) = Ok true -> is_flt (kind_of e cf) = true ->
+  (exists z, v = PInt z) \/ (exists b, v = PFloat b).
+Proof.
+  intros H K.
+  assert (Hflt : forall f0, validate f0 o e SFloat (Some v) = Ok true -> (exists z, v = PInt z) \/ (exists b, v = PFloat b)).
+  { intros [|f0] H0; [discriminate|]. cbn [validate] in H0. destruct v; try discriminate; [left|right]; eexists; reflexivity. }
+  destruct (validate_strip _ _ _ _ _ _ H) as (f1 & H1). unfold kind_of in K.
+  destruct (strip cf) eqn:Es; try discriminate K.
+  - eapply Hflt. exact H1.
+  - destruct f1 as [|f1]; [discriminate|]. cbn [validate] in H1. destruct (lookup e n) as [d|]; [|discriminate].
+    destruct (validate_strip _ _ _ _ _ _ H1) as (f2 & H2). destruct (strip d); try discriminate K. eapply Hflt. exact H2.
+Qed.
+
+Lemma double_accepts_numbers o e : forall c f v b, is_double c = true ->
+  ((exists z, v = PInt z) \/ (exists x, v = PFloat x)) -> validate f o e c (Some v) = Ok b -> b = true.
+Proof.
+  induction c; intros f v b Hd Hv H; try discriminate Hd.
+  - destruct f as [|f]; [discriminate|]. cbn [validate] in H. destruct Hv as [[z ->]|[x ->]]; injection H as <-; reflexivity.
+  - destruct f as [|f]; [discriminate|]. cbn [validate] in H. unfold is_double in *. cbn [strip] in Hd. eapply IHc; eassumption.
+Qed.
+
+Lemma bytes_eqb_sym a : forall b, bytes_eqb a b = bytes_eqb b a.
+Proof. induction a as [|x a IH]; intros [|y b]; cbn [bytes_eqb]; try reflexivity. rewrite Z.eqb_sym, IH. reflexivity. Qed.
+
+Lemma index_of_some x syms : existsb (bytes_eqb x) syms = true -> forall i0, exists i, index_of syms x i0 = Some i.
+Proof.
+  induction syms as [|s syms IH]; cbn [existsb index_of]; intros H i0; [discriminate|].
+  rewrite (bytes_eqb_sym s x). destruct (bytes_eqb x s); [eexists; reflexivity|]. apply IH. exact H.
+Qed.
+
+Definition default_writer (o : wopts) : Prop := strict o = false /\ strict_allow_default o = false.
+
+Theorem writer_accepts : forall n o e s v f, default_writer o ->
+  wdom n o e s v -> validate f o e s (Some v) = Ok true -> ev_elab o e s v.
+Proof.
+  induction n as [|n IH]; intros o e s v f Ho Hd Hv; [destruct Hd|].
+  destruct f as [|f]; [discriminate|]. cbn [validate] in Hv.
+  assert (Hleaf : forall a, (forall f', elab (S f') o e s v = WOk a) -> ev_elab o e s v).
+  { intros a Ha. exists 1%nat. intros [|f'] Hf; [lia|]. exists a. apply Ha. }
+  destruct s.
+  - destruct v; try discriminate. apply (Hleaf ANull). reflexivity.
+  - destruct v; try discriminate. apply (Hleaf (ABool b)). reflexivity.
+  - destruct v; try discriminate. injection Hv as Hv. apply (Hleaf (AInt z)). intros f'. cbn [elab]. rewrite Hv. reflexivity.
+  - destruct v; try discriminate. injection Hv as Hv. apply (Hleaf (AInt z)). intros f'. cbn [elab]. rewrite Hv. reflexivity.
+  - (* float *)
+    destruct Hd as [Hdb Hfl].
+    assert (Hb : exists b, to_double v = WOk b).
+    { destruct v; try discriminate; [|eexists; reflexivity]. destruct (Hdb z eq_refl) as [d Hz]. exists d. cbn [to_double]. rewrite Hz. reflexivity. }
+    destruct Hb as [b Hb]. destruct (Hfl b Hb) as [x Hx]. apply (Hleaf (AFloat x)). intros f'. cbn [elab].
+    destruct v; try discriminate; rewrite Hb; cbn [wbind]; rewrite Hx; reflexivity.
+  - (* double *)
+    assert (Hb : exists b, to_double v = WOk b).
+    { destruct v; try discriminate; [|eexists; reflexivity]. destruct (Hd z eq_refl) as [d Hz]. exists d. cbn [to_double]. rewrite Hz. reflexivity. }
+    destruct Hb as [b Hb]. apply (Hleaf (ADouble b)). intros f'. cbn [elab]. destruct v; try discriminate; rewrite Hb; reflexivity.
+  - destruct v; try discriminate; [apply (Hleaf (ABytes b))|apply (Hleaf (ABytes b))]; reflexivity.
+  - destruct v; try discriminate. apply (Hleaf (AString s)). reflexivity.
+  - destruct v; try discriminate. injection Hv as Hv. apply (Hleaf (AFixed b)). intros f'. cbn [elab]. rewrite Hv. reflexivity.
+  - destruct v; try discriminate. injection Hv as Hv. destruct (index_of_some _ _ Hv 0) as [i Hi].
+    apply (Hleaf (AEnum i)). intros f'. cbn [elab]. rewrite Hi. reflexivity.
+  - (* array *)
+    destruct (as_sequence v) as [l|] eqn:Es; [|discriminate]. apply all_items_true in Hv.
+    cbn [wdom] in Hd. specialize (Hd l (proj1 (as_sequence_items v l) Es)).
+    assert (Hev : Forall (ev_elab o e s) l).
+    { rewrite Forall_forall in *. intros x Hx. eapply IH; [exact Ho|apply Hd; exact Hx|apply Hv; exact Hx]. }
+    destruct (elab_items_ev _ _ _ _ Hev) as [f0 Hf0]. exists (S f0). intros [|f'] Hf; [lia|].
+    destruct (Hf0 f' ltac:(lia)) as [r Hr]. exists (AArray r). rewrite (elab_array_eq _ _ _ _ _ _ Es), Hr. reflexivity.
+  - (* map *)
+    destruct v; try discriminate. destruct (forallb is_str_key kv) eqn:Ek; [|discriminate]. apply all_items_true in Hv.
+    cbn [wdom] in Hd. specialize (Hd kv eq_refl). rewrite forallb_forall in Ek.
+    assert (Hev : Forall (fun p => (exists k, fst p = PStr k) /\ ev_elab o e s (snd p)) kv).
+    { rewrite Forall_forall in *. intros p Hp. split.
+      - specialize (Ek p Hp). unfold is_str_key in Ek. destruct (fst p); try discriminate. eexists; reflexivity.
+      - eapply IH; [exact Ho|apply Hd; exact Hp|apply Hv; apply in_map; exact Hp]. }
+    destruct (elab_map_ev _ _ _ _ Hev) as [f0 Hf0]. exists (S f0). intros [|f'] Hf; [lia|].
+    destruct (Hf0 f' ltac:(lia)) as [r Hr]. exists (AMap r). cbn [elab]. rewrite Hr. reflexivity.
+  - (* union *)
+    assert (Hsearch : any_branch (validate f o e) v bs = Ok true ->
+              Forall (fun c => (exists b, validate n o e c (Some v) = Ok b) /\ wdom n o e c v) bs ->
+              exists f0, forall f', (f0 <= f')%nat -> exists a, union_search f' o e bs v = WOk a).
+    { intros Ha Hall. rewrite Forall_forall in Hall.
+      (* the answers of the validator are the same for every fuel >= n *)
+      assert (Hsame : forall f', (n <= f')%nat -> forall c, In c bs -> vval f' o e c v = vval n o e c v).
+      { intros f' Hf c Hc. destruct (Hall c Hc) as [[b Hb] _]. unfold vval. rewrite Hb.
+        eapply validate_fuel_mono; [exact Hf|exact Hb]. }
+      destruct (choose_total (vval n o e) e v bs (fun c Hc => proj1 (Hall c Hc)) 0 (-1) (-1) false) as (j & Hj & Hr).
+      (* some branch validates, so the result is not -1 *)
+      apply any_branch_true in Ha. destruct Ha as (pre & c0 & post & Hbs & _ & Hc0).
+      assert (Hin0 : In c0 bs) by (rewrite Hbs; apply in_or_app; right; left; reflexivity).
+      assert (Hc0n : validate n o e c0 (Some v) = Ok true).
+      { destruct (Hall c0 Hin0) as [[b Hb] _]. rewrite Hb. f_equal.
+        pose proof (validate_fuel_mono f (Nat.max f n) o e (Nat.le_max_l _ _) _ _ _ Hc0) as H1.
+        pose proof (validate_fuel_mono n (Nat.max f n) o e (Nat.le_max_r _ _) _ _ _ Hb) as H2. congruence. }
+      assert (Hj0 : 0 <= j < len bs).
+      { destruct Hr as [->|Hr]; [|lia]. exfalso. apply search_none in Hj. rewrite Forall_forall in Hj.
+        specialize (Hj c0 Hin0). unfold vval in Hj. congruence. }
+      destruct (nthZ_some bs j Hj0) as [c Hc]. assert (Hinc : In c bs) by (eapply nthZ_In; exact Hc).
+      assert (Hcv : validate n o e c (Some v) = Ok true).
+      { destruct (search_valid _ _ _ _ _ Hj ltac:(lia)) as (c' & Hc' & Hcase). rewrite Hc in Hc'. injection Hc' as <-.
+        destruct Hcase as [Hok|(Hdbl & k & cf & _ & _ & Hcf & Hkf)]; [exact Hok|].
+        destruct (Hall c Hinc) as [[b Hb] _]. rewrite Hb. f_equal.
+        eapply double_accepts_numbers; [exact Hdbl| |exact Hb]. eapply number_of_float_kind; [exact Hcf|exact Hkf]. }
+      destruct (IH o e c v n Ho (proj2 (Hall c Hinc)) Hcv) as [fc Hfc].
+      exists (Nat.max n fc). intros f' Hf. destruct (Hfc f' ltac:(lia)) as [a Ha'].
+      exists (AUnion j a). unfold union_search. fold (vval f' o e).
+      rewrite (choose_ext (vval f' o e) (vval n o e) e v bs (Hsame f' ltac:(lia))), Hj. cbn [of_res wbind].
+      destruct (j <? 0) eqn:Ej; [lia|]. unfold union_go. rewrite Hc, Ha'. reflexivity. }
+    assert (Hwrap : (exists f0, forall f', (f0 <= f')%nat -> exists a, union_search f' o e bs v = WOk a) ->
+                    ~ hinted_by o v -> ev_elab o e (SUnion bs) v).
+    { intros [f0 Hf0] Hnh. exists (S f0). intros [|f'] Hf; [lia|]. destruct (Hf0 f' ltac:(lia)) as [a Ha].
+      exists a. rewrite elab_union_eq. destruct v; try exact Ha. destruct (disable_tuple o) eqn:Ed; [exact Ha|].
+      exfalso. apply Hnh. eexists. split; [reflexivity|exact Ed]. }
+    destruct v; try (apply Hwrap; [apply Hsearch; [exact Hv|exact Hd]|intros (? & Hl & _); discriminate]).
+    cbn [wdom] in Hd. destruct (disable_tuple o) eqn:Edt.
+    { apply Hwrap; [apply Hsearch; [exact Hv|exact Hd]|intros (? & _ & Hf); congruence]. }
+    destruct l as [|name [|x [|? ?]]]; try discriminate.
+    destruct name as [| | | |nm| | | | |]; try (rewrite hinted_nonstr in Hv by (intros ? ?; discriminate); discriminate).
+    rewrite hinted_str in Hv. destruct (first_named nm bs) as [b|] eqn:Ef; [|discriminate].
+    specialize (Hd nm x b eq_refl Ef). destruct (IH o e b x f Ho Hd Hv) as [fb Hfb].
+    pose proof (find_first_named nm bs 0) as Hff. destruct (find_named nm bs 0) as [i|] eqn:Efn; [|congruence].
+    destruct Hff as (b' & Hb' & Hn). rewrite Ef in Hb'. injection Hb' as <-. rewrite Z.sub_0_r in Hn.
+    exists (S fb). intros [|f'] Hf; [lia|]. destruct (Hfb f' ltac:(lia)) as [a Ha]. exists (AUnion i a).
+    rewrite elab_union_eq, Edt, Efn. unfold union_go. rewrite Hn, Ha. reflexivity.
+  - (* record *)
+    destruct v; try discriminate.
+    destruct (match dict_get kv (s2b "-type") with Some (PStr t) => bytes_eqb t n0 | Some _ => false | None => true end);
+      [|discriminate].
+    apply all_fields_true in Hv. cbn [wdom] in Hd. specialize (Hd kv eq_refl). destruct Ho as [Hs Hsd].
+    assert (Hready : Forall (field_ready o e kv) fs).
+    { rewrite Forall_forall in *. intros fd Hfd. specialize (Hv fd Hfd). specialize (Hd fd Hfd).
+      unfold field_value in Hv. unfold field_wdom in Hd. unfold field_ready, field_datum, key_in.
+      (* the value handed to the field's writer, when there is one *)
+      assert (Hnum : forall x, validate f o e (ftype fd) (Some x) = Ok true ->
+                match ftype fd with
+                | SFloat | SDouble => dbl_ok x /\ forall b, to_double x = WOk b -> wdom n o e (ftype fd) (PFloat b)
+                | _ => wdom n o e (ftype fd) x end ->
+                exists v', fconv (ftype fd) x = WOk v' /\ ev_elab o e (ftype fd) v').
+      { intros x Hx Hw. destruct (ftype fd) eqn:Et;
+          try (exists x; split; [reflexivity|]; eapply IH; [split; assumption|exact Hw|exact Hx]).
+        - destruct Hw as [Hdb Hw]. destruct f as [|f1]; [discriminate|]. cbn [validate] in Hx.
+          assert (Hb : exists b, to_double x = WOk b).
+          { destruct x; try discriminate; [|eexists; reflexivity]. destruct (Hdb z eq_refl) as [d Hz]. exists d. cbn [to_double]. rewrite Hz. reflexivity. }
+          destruct Hb as [b Hb]. exists (PFloat b). split; [unfold fconv; rewrite Hb; reflexivity|].
+          eapply (IH o e SFloat (PFloat b) 1%nat); [split; assumption|apply Hw; exact Hb|reflexivity].
+        - destruct Hw as [Hdb Hw]. destruct f as [|f1]; [discriminate|]. cbn [validate] in Hx.
+          assert (Hb : exists b, to_double x = WOk b).
+          { destruct x; try discriminate; [|eexists; reflexivity]. destruct (Hdb z eq_refl) as [d Hz]. exists d. cbn [to_double]. rewrite Hz. reflexivity. }
+          destruct Hb as [b Hb]. exists (PFloat b). split; [unfold fconv; rewrite Hb; reflexivity|].
+          eapply (IH o e SDouble (PFloat b) 1%nat); [split; assumption|apply Hw; exact Hb|reflexivity]. }
+      destruct (dict_get kv (fname fd)) as [x|] eqn:Eg.
+      - split; [intros; discriminate|]. apply Hnum; assumption.
+      - destruct (fdefault fd) as [d|] eqn:Edf.
+        + split; [intros; discriminate|]. apply Hnum; assumption.
+        + destruct Hd as [Hnull Hw]. split; [intros _ _; exact Hnull|].
+          destruct f as [|f1]; [discriminate|]. cbn [validate] in Hv. rewrite Hs in Hv.
+          exists PNone. split.
+          * unfold fconv. destruct (ftype fd); try reflexivity; discriminate Hnull.
+          * eapply IH; [split; assumption|exact Hw|exact Hv]. }
+    destruct (elab_fields_ev o e kv fs Hs Hsd Hready) as [f0 Hf0]. exists (S f0). intros [|f'] Hf; [lia|].
+    destruct (Hf0 f' ltac:(lia)) as [r Hr]. exists (ARecord r). cbn [elab]. rewrite Hs, Hsd. cbn [orb andb]. rewrite Hr. reflexivity.
+  - (* reference *)
+    destruct (lookup e n0) as [s'|] eqn:El; [|discriminate]. cbn [wdom] in Hd. specialize (Hd s' El).
+    destruct (IH o e s' v f Ho Hd Hv) as [f0 Hf0]. exists (S f0). intros [|f'] Hf; [lia|].
+    destruct (Hf0 f' ltac:(lia)) as [a Ha]. exists a. cbn [elab]. rewrite El. exact Ha.
+  - cbn [wdom] in Hd. destruct (IH o e s v f Ho Hd Hv) as [f0 Hf0]. exists (S f0). intros [|f'] Hf; [lia|].
+    destruct (Hf0 f' ltac:(lia)) as [a Ha]. exists a. cbn [elab]. exact Ha.
+Qed.
+
+(* accepted => encoded => read back (C01), with the float side condition of elab_typed made explicit *)
+Theorem accepted_roundtrip n o ro e s v f : default_writer o -> wdom n o e s v -> validate f o e s (Some v) = Ok true ->
+  wf_env e = true -> wf_schema s = true -> wf_py v = true ->
+  exists f0, forall f', (f0 <= f')%nat -> exists a,
+    elab f' o e s v = WOk a /\ write f' o e s v = WOk (wire a) /\
+    (floats_ok a = true -> forall pv, py_of ro e s a = Some pv ->
+       forall f'', (f' <= f'')%nat -> forall r, read f'' ro e s (wire a ++ r) = Ok (pv, r)).
+Proof.
+  intros Ho Hd Hv He Hs Hp. destruct (writer_accepts n o e s v f Ho Hd Hv) as [f0 Hf0]. exists f0. intros f' Hf.
+  destruct (Hf0 f' Hf) as [a Ha]. exists a. split; [exact Ha|]. split; [unfold write; rewrite Ha; reflexivity|].
+  intros Hfl pv Hpv f'' Hf'' r. unfold read.
+  rewrite (wire_dec f' e s a (elab_typedn f' o e s v a Ha He Hs Hp Hfl) f'' Hf'' r). cbn [bind]. rewrite Hpv. reflexivity.
+Qed.
+
+(** one-step unfoldings of [wdom], for examples *)
+Lemma wdom_record n o e nm al fs kv :
+  Forall (field_wdom (wdom n o e) kv) fs -> wdom (S n) o e (SRecord nm al fs) (PDict kv).
+Proof. intros H. cbn [wdom]. intros kv' E. injection E as <-. exact H. Qed.
+Lemma wdom_array n o e it v l : as_sequence v = Some l -> Forall (wdom n o e it) l -> wdom (S n) o e (SArray it) v.
+Proof.
+  intros Hs H. cbn [wdom]. intros l' Hl. apply as_sequence_items in Hl. rewrite Hs in Hl. injection Hl as <-. exact H.
+Qed.
+Lemma wdom_union_plain n o e bs v : (forall l, v <> PTuple l) ->
+  Forall (fun c => (exists b, validate n o e c (Some v) = Ok b) /\ wdom n o e c v) bs -> wdom (S n) o e (SUnion bs) v.
+Proof. intros Hn H. cbn [wdom]. destruct v; try exact H. exfalso. eapply Hn. reflexivity. Qed.
+Lemma wdom_union_hint n o e bs nm x b : disable_tuple o = false ->
+  first_named nm bs = Some b -> wdom n o e b x -> wdom (S n) o e (SUnion bs) (PTuple [PStr nm; x]).
+Proof.
+  intros Hd Hf H. cbn [wdom]. rewrite Hd. intros name x' b' E Hf'. injection E as <- <-. rewrite Hf in Hf'. injection Hf' as <-. exact H.
+Qed.
+Lemma wdom_float n o e v : dbl_ok v -> flt_ok v -> wdom (S n) o e SFloat v.
+Proof. intros H1 H2. split; assumption. Qed.
+
+(** *** C09 closure, the union node: a value read with return_named_type=True under a NAMED branch (record / enum /
+    fixed given inline, or a by-name reference) is a (name, value) pair, and writing that pair back selects the same
+    index -- provided no earlier branch answers to the same name -- and re-encodes the inner value under the branch *)
+Definition named_branch (b : schema) : bool :=
+  match strip b with SRecord _ _ _ | SEnum _ _ _ _ | SFixed _ _ _ | SRef _ => true | _ => false end.
+
+Lemma find_named_first nm bs : forall i0 i b, nthZ bs (i - i0) = Some b -> branch_name b = nm -> i0 <= i ->
+  (forall k c, 0 <= k < i - i0 -> nthZ bs k = Some c -> branch_name c <> nm) -> find_named nm bs i0 = Some i.
+Proof.
+  induction bs as [|c bs IH]; intros i0 i b Hn Hb Hi Hfirst; [discriminate|]. cbn [find_named].
+  destruct (Z.eq_dec i i0) as [->|Hne].
+  - rewrite Z.sub_diag in Hn. cbn [nthZ] in Hn. injection Hn as <-. rewrite Hb, beqb_refl. reflexivity.
+  - assert (Hc : bytes_eqb (branch_name c) nm = false).
+    { destruct (bytes_eqb (branch_name c) nm) eqn:E; [|reflexivity]. apply beqb_eq in E. exfalso.
+      apply (Hfirst 0 c); [lia|reflexivity|exact E]. }
+    rewrite Hc. apply (IH (i0 + 1) i b); [|exact Hb|lia|].
+    + rewrite nthZ_cons_pos in Hn by lia. replace (i - (i0 + 1)) with (i - i0 - 1) by lia. exact Hn.
+    + intros k c' Hk Hkc. apply (Hfirst (k + 1) c'); [lia|]. rewrite nthZ_cons_pos by lia.
+      replace (k + 1 - 1) with k by lia. exact Hkc.
+Qed.
+
+Theorem union_closure_step f o e bs i b a pv0 pv :
+  disable_tuple o = false -> nthZ bs i = Some b -> named_branch b = true ->
+  (forall k c, 0 <= k < i -> nthZ bs k = Some c -> branch_name c <> branch_name b) ->
+  py_of ro_named e b a = Some pv0 -> elab f o e b pv0 = WOk a ->
+  py_of ro_named e (SUnion bs) (AUnion i a) = Some pv ->
+  pv = PTuple [PStr (branch_name b); pv0] /\ elab (S f) o e (SUnion bs) pv = WOk (AUnion i a).
+Proof.
+  intros Hd Hn Hnb Hfirst Hp0 Hel Hp.
+  assert (Hpv : pv = PTuple [PStr (branch_name b); pv0]).
+  { cbn [py_of resolve strip] in Hp. rewrite Hn, Hp0 in Hp. injection Hp as <-.
+    unfold wrap_union, ro_named, named_branch, branch_name, type_name in *. cbn [ret_named_override ret_named andb] in *.
+    destruct (strip b); try discriminate Hnb; reflexivity. }
+  split; [exact Hpv|]. subst pv. rewrite elab_union_eq, Hd.
+  pose proof (nthZ_range _ _ _ Hn) as Hi.
+  rewrite (find_named_first (branch_name b) bs 0 i b); [|rewrite Z.sub_0_r; exact Hn|reflexivity|lia|rewrite Z.sub_0_r; exact Hfirst].
+  unfold union_go. rewrite Hn, Hel. reflexivity.
+Qed.
